@@ -92,3 +92,321 @@ def bound(rep, types, why):
     for t in types:
         rep.guarded("R-C05-bound", lambda r, t=t: C03.rule_margin(C05.FinalStep(r), t, asyncmodel.extract(r.ctx.facts, t)))
     rep.clause("R-C05-bound", "fixed-input loops stop while the kernel still reads loaded frames only (reach + final step subtracted from the bound; shared with C05): " + why)
+
+
+# ----------------------------------------------------------------------------------------------
+# The whole-resampler rule set.
+#
+# A behavioural property (the output stream, its timing, its frame counts ...) holds only if the resampler works at all: a panic, a frame
+# silently dropped, a call that corrupts state, an alternative entry point that forwards to the wrong method break every one of them.  Four
+# rounds of independently written breaking changes showed that changes aimed at property P are regularly of that kind ("caught, but by the
+# check of property Q").  complete(rep) therefore adds to a behavioural property's check every rule group it has not evaluated itself.
+# Groups whose rules carry recorded findings under another property (R-C03-margin / -history / -subindex, R-C04-outbound, R-C14-model) are
+# not shared; R-C05-bound and R-C01-nodes cover the part of them that is needed here.
+
+ASYNC_T = ["SincFixedIn", "SincFixedOut", "FastFixedIn", "FastFixedOut"]
+FIXED_OUT_T = ["SincFixedOut", "FastFixedOut"]
+FIXED_IN_T = ["SincFixedIn", "FastFixedIn"]
+
+
+def _g_step(rep):
+    step(rep, ASYNC_T, "whole-resampler rule set")
+
+
+def _g_carry(rep):
+    carry(rep, ASYNC_T, "whole-resampler rule set")
+
+
+def _g_provision(rep):
+    provision(rep, FIXED_OUT_T, "whole-resampler rule set")
+
+
+def _g_restore(rep):
+    restore(rep, list(RESAMPLERS), "whole-resampler rule set")
+    rep.floor("R-C10-restore", 51)
+
+
+def _g_agree(rep):
+    agree(rep, "whole-resampler rule set", counter=True)
+
+
+def _g_wrappers(rep):
+    wrappers(rep, "whole-resampler rule set")
+
+
+def _g_forward(rep):
+    import C16
+    import mir
+
+    def fw(r):
+        C16.rule_forward(r, mir.mode_p(r.ctx.repo))
+    rep.guarded("R-C16-forward", fw)
+    rep.floor("R-C16-forward", 15)
+    rep.clause("R-C16-forward", "VecResampler (the trait-object view) forwards every method to the Resampler method of the same name with the same arguments (shared with C16)")
+
+
+def _g_conserve(rep):
+    conserve(rep, "whole-resampler rule set")
+
+
+def _g_bound(rep):
+    bound(rep, FIXED_IN_T, "whole-resampler rule set")
+    rep.floor("R-C05-bound", 20)
+
+
+def _g_memory(rep):
+    import C03
+    import C08
+    import C15
+    facts = rep.ctx.facts
+    for t in ASYNC_T:
+        def one(r, t=t):
+            m = asyncmodel.extract(facts, t)
+            C03.rule_chan(r, t, m)
+            C03.rule_outwrite(r, t, m)
+            C03.rule_alloc(r, t, m)
+        rep.guarded("R-C03-chan", one)
+    rep.guarded("R-C03-window", C08.rule_window, "R-C03-window")
+    rep.guarded("R-C03-guard", C03.rule_guard)
+    rep.guarded("R-C03-kernel-bounds", C15.rule_kernel_bounds, "R-C03-kernel-bounds")
+    rep.guarded("R-C03-fft-capacity", C03.rule_fft_capacity)
+    rep.guarded("R-C03-fft-capacity", C03.rule_fft_buffers)
+    rep.guarded("R-C03-panic-sites", C03.rule_panics)
+    rep.guarded("R-C03-validate-exact", C03.rule_validate_exact)
+    rep.floor("R-C03-chan", 26)
+    rep.floor("R-C03-outwrite", 18)
+    rep.floor("R-C03-alloc", 4)
+    rep.floor("R-C03-window", 10)
+    rep.floor("R-C03-guard", 18)
+    rep.floor("R-C03-kernel-bounds", 7)
+    rep.floor("R-C03-fft-capacity", 5)
+    rep.floor("R-C03-panic-sites", 21)
+    rep.floor("R-C03-validate-exact", 2)
+    rep.clause("R-C03-* (memory safety)", "per-channel indexing, output writes bounded by the validated size, buffer allocations, polynomial windows, kernel guards and loads, FFT buffer "
+                                         "capacities, the reviewed panic-site table (shared with C03; the rules carrying C03's recorded findings are not included)")
+
+
+def _g_arith(rep):
+    import arith
+    import C18
+    import mir
+    rep.guarded("R-C03-arith", arith.run)
+    rep.floor("R-C03-arith", 60)
+    rep.guarded("R-C18-uninit", lambda r: C18.rule_uninit(r, mir.mode_p(r.ctx.repo)))
+    rep.floor("R-C18-uninit", 1)
+    rep.clause("R-C03-arith / R-C18-uninit", "no unsigned underflow, division by zero or zero chunk size on any accepted configuration; no uninitialised storage (shared with C03 / C18)")
+
+
+def _g_validation(rep):
+    import C13
+    rep.guarded("R-C13-mask", C13.rule_mask)
+    rep.guarded("R-C13-order", C13.rule_order)
+    rep.guarded("R-C13-report", C13.rule_report)
+    rep.guarded("R-C13-args", C13.rule_args)
+    rep.floor("R-C13-mask", 9)
+    rep.floor("R-C13-order", 28)
+    rep.floor("R-C13-report", 12)
+    rep.floor("R-C13-args", 14)
+    rep.clause("R-C13-*", "arguments are validated before any state changes, so a rejected call leaves the stream and the accounting untouched (shared with C13)")
+
+
+def _g_setters(rep):
+    import C06
+    import C12
+    facts = rep.ctx.facts
+    for t in ASYNC_T:
+        def one(r, t=t):
+            sh, o, m_ = C12.rule_abs(r, t)
+            C12.rule_rel(r, t, sh, o, m_)
+            C06.rule_setter(r, t, asyncmodel.extract(facts, t))
+        rep.guarded("R-C12-abs", one)
+    rep.guarded("R-C12-chunk", C12.rule_chunk)
+    rep.floor("R-C12-abs", 28)
+    rep.floor("R-C12-rel", 4)
+    rep.floor("R-C12-chunk", 16)
+    rep.floor("R-C06-setter", 28)
+    rep.clause("R-C12-* / R-C06-setter", "ratio and chunk-size changes are accepted exactly in the documented ranges and store exactly the requested values (shared with C12 / C06)")
+
+
+def _g_frames(rep):
+    import C01
+    import C08
+    holder = {}
+    rep.guarded("R-C01-poly", lambda r: holder.update(polys=C08.rule_poly(r, "R-C01-poly", "asynchro_sinc", ["interp_cubic", "interp_quad", "interp_lin"])))
+    rep.guarded("R-C01-nodes", lambda r: C01.rule_nodes(r, holder.get("polys", {})))
+    rep.guarded("R-C01-siblings", C01.rule_siblings)
+    rep.guarded("R-C08-poly", lambda r: holder.update(fpolys=C08.rule_poly(r, "R-C08-poly", "asynchro_fast", [v[0] for v in C08.FAST_BLENDS.values()])))
+    rep.guarded("R-C08-window", lambda r: holder.update(per_type=C08.rule_window(r, "R-C08-window", holder.get("fpolys"))))
+
+    def fast_siblings(r):
+        pt = holder.get("per_type") or {}
+        for variant in list(C08.FAST_BLENDS) + ["Nearest"]:
+            d = pt.get(variant, {})
+            ok = "FastFixedIn" in d and "FastFixedOut" in d and d["FastFixedIn"] == d["FastFixedOut"]
+            r.ob("R-C08-siblings", variant, ok, "FastFixedIn %s vs FastFixedOut %s" % (d.get("FastFixedIn"), d.get("FastFixedOut")), "src/asynchro_fast.rs")
+    rep.guarded("R-C08-siblings", fast_siblings)
+    rep.floor("R-C01-poly", 15)
+    rep.floor("R-C01-nodes", 12)
+    rep.floor("R-C01-siblings", 4)
+    rep.floor("R-C08-poly", 28)
+    rep.floor("R-C08-window", 10)
+    rep.floor("R-C08-siblings", 5)
+    rep.clause("R-C01-poly/-nodes/-siblings, R-C08-poly/-window/-siblings", "each output frame is computed from the right samples with the right weights, identically in the FixedIn and FixedOut variants (shared with C01 / C08)")
+
+
+def _g_table(rep):
+    import C01
+    import C02
+    import C15
+    import paramflow
+    import sincmodel
+    facts = rep.ctx.facts
+    rep.guarded("R-C01-grid", lambda r: C01.rule_grid(r, sincmodel.extract_make_sincs(facts)))
+    rep.guarded("R-C01-grid", C01.rule_sinc_fn)
+    rep.guarded("R-C15-lanes", lambda r: C15.run_all_kernels(r, "R-C15-lanes"))
+    rep.guarded("R-C15-dispatch", C15.rule_dispatch)
+    rep.guarded("R-C02-params-flow", paramflow.run)
+    rep.guarded("R-C02-length", C02.rule_length)
+    rep.guarded("R-C02-window-table", C02.rule_window_table)
+    rep.guarded("R-C02-cutoff-upper", lambda r: C01.rule_cutoff(r, "R-C02-cutoff-upper", "upper"))
+    rep.guarded("R-C01-cutoff-lower", lambda r: C01.rule_cutoff(r, "R-C01-cutoff-lower", "lower"))
+    rep.floor("R-C01-grid", 7)
+    rep.floor("R-C15-lanes", 61)
+    rep.floor("R-C15-dispatch", 24)
+    rep.floor("R-C02-params-flow", 49)
+    rep.floor("R-C02-length", 3)
+    rep.floor("R-C02-window-table", 15)
+    rep.floor("R-C02-cutoff-upper", 1)
+    rep.floor("R-C01-cutoff-lower", 1)
+    rep.clause("filter table and kernels", "the polyphase table is built from the user's parameters as documented and every kernel adds each tap once (shared with C01 / C02 / C15)")
+
+
+def _g_fftunit(rep):
+    import C01
+    import C02
+    import C07
+    import C04
+    import fftunit
+    rep.guarded("R-C01-ola", C01.rule_ola)
+    rep.guarded("R-C02-fft", C02.rule_fft)
+    rep.guarded("R-C10-scratch", lambda r: fftunit.rule_scratch(r, "R-C10-scratch"))
+    rep.guarded("R-C07-gcd", C07.rule_gcd)
+    rep.guarded("R-C07-exact", C07.rule_exact)
+    rep.guarded("R-C04-fft-formulas", C04.rule_fft_siblings)
+    rep.floor("R-C01-ola", 8)
+    rep.floor("R-C02-fft", 4)
+    rep.floor("R-C10-scratch", 5)
+    rep.floor("R-C07-gcd", 11)
+    rep.floor("R-C07-exact", 4)
+    rep.floor("R-C04-fft-formulas", 3)
+    rep.clause("FFT unit and block sizes", "overlap-add structure, cleared padding, exact block-size ratio and request formulas of the three FFT types (shared with C01 / C02 / C07 / C04)")
+
+
+def _g_channels(rep):
+    import C11
+    import fftunit
+    for t in RESAMPLERS:
+        rep.guarded("R-C11-guard", lambda r, t=t: C11.rule_guard_and_index(r, t))
+        rep.guarded("R-C11-count", lambda r, t=t: C11.rule_mask_uses(r, t))
+    rep.guarded("R-C11-guard", C11.rule_validate)
+    rep.guarded("R-C11-scratch", C11.rule_points)
+    rep.guarded("R-C11-default-mask", C11.rule_default_mask)
+    rep.floor("R-C11-default-mask", 8)
+    rep.floor("R-C11-guard", 49)
+    rep.floor("R-C11-index", 70)
+    rep.floor("R-C11-count", 14)
+    rep.floor("R-C11-scratch", 6)
+    rep.clause("R-C11-*", "channels are processed independently under their own mask bit; None means all channels (shared with C11)")
+
+
+def _g_counts(rep):
+    import C04
+    for t in RESAMPLERS:
+        rep.guarded("R-C04-next-le-max", lambda r, t=t: C04.rule_next_le_max(r, t))
+        rep.guarded("R-C04-max-const", lambda r, t=t: C04.rule_max_const(r, t))
+    for t in FIXED_OUT_T:
+        rep.guarded("R-C04-max-bound", lambda r, t=t: C04.rule_max_bound(r, t))
+    rep.guarded("R-C04-allocate", C04.rule_allocate)
+    rep.floor("R-C04-next-le-max", 14)
+    rep.floor("R-C04-max-const", 14)
+    rep.floor("R-C04-max-bound", 2)
+    rep.floor("R-C04-allocate", 4)
+    rep.clause("R-C04-next-le-max / -max-const / -max-bound / -allocate", "buffers sized by the *_max getters always suffice (shared with C04)")
+
+
+GROUPS = [
+    ("step", ["R-C06-step"], _g_step),
+    ("carry", ["R-C05-shift"], _g_carry),
+    ("provision", ["R-C06-provision", "R-C03-provision"], _g_provision),
+    ("restore", ["R-C10-restore"], _g_restore),
+    ("agree", ["R-C04-agree"], _g_agree),
+    ("wrappers", ["R-C16-process"], _g_wrappers),
+    ("forward", ["R-C16-forward"], _g_forward),
+    ("conserve", ["R-C07-conserve", "R-C05-fft"], _g_conserve),
+    ("bound", ["R-C05-bound", "R-C03-margin"], _g_bound),
+    ("memory", ["R-C03-chan"], _g_memory),
+    ("arith", ["R-C03-arith"], _g_arith),
+    ("validation", ["R-C13-order"], _g_validation),
+    ("setters", ["R-C12-chunk"], _g_setters),
+    ("frames", ["R-C08-poly"], _g_frames),
+    ("table", ["R-C02-window-table"], _g_table),
+    ("fftunit", ["R-C02-fft"], _g_fftunit),
+    ("channels", ["R-C11-default-mask"], _g_channels),
+    ("counts", ["R-C04-max-const"], _g_counts),
+]
+
+
+class _Once:
+    """Report proxy: obligations and floors of rule ids the property's own rules already evaluated are dropped (they were decided natively)."""
+
+    def __init__(self, rep, native):
+        self._rep = rep
+        self._native = native
+        self.ctx = rep.ctx
+
+    def ob(self, rule, key, ok, detail="", where="", sample=None):
+        if rule in self._native:
+            return bool(ok)
+        return self._rep.ob(rule, key, ok, detail, where, None)
+
+    def floor(self, rule, n):
+        if rule not in self._native:
+            self._rep.floor(rule, n)
+
+    def clause(self, rule, text):
+        if not any(r in self._native for r in rule.replace(" ", "").split("/")):
+            self._rep.clause(rule, text)
+
+    def guarded(self, rule, fn, *a, **kw):
+        from ir import AnchorMissing
+        try:
+            return fn(self, *a, **kw)
+        except AnchorMissing as ex:
+            self.anchor_missing(rule, str(ex))
+        except Exception as ex:      # noqa: BLE001 - same fail-closed behaviour as Report.guarded
+            if rule not in self._native:
+                self._rep.ob(rule, "anchor-missing/unexpected-shape", False, "rule could not interpret the current source (fail closed): %s: %s" % (type(ex).__name__, ex))
+        return None
+
+    def anchor_missing(self, rule, what, where=""):
+        if rule not in self._native:
+            self._rep.anchor_missing(rule, what, where)
+
+    def __getattr__(self, name):
+        return getattr(self._rep, name)
+
+
+def complete(rep, skip=()):
+    """Add every rule group the property has not evaluated itself (see the comment above GROUPS)."""
+    native = {o["rule"] for o in rep.obs} | set(rep.floors)
+    proxy = _Once(rep, native)
+    ran = []
+    for name, markers, fn in GROUPS:
+        if name in skip:
+            continue
+        if markers[0] in native or any(mk in native for mk in markers[1:]):
+            continue
+        fn(proxy)
+        ran.append(name)
+    rep.extra["whole_resampler_groups_added"] = ran
+    return ran
